@@ -2,12 +2,16 @@ package sim
 
 import (
 	"fmt"
+	"time"
 
 	"cosmossdk.io/math"
 
 	sdk "github.com/cosmos/cosmos-sdk/types"
+	authtypes "github.com/cosmos/cosmos-sdk/x/auth/types"
 	banktypes "github.com/cosmos/cosmos-sdk/x/bank/types"
 
+	transfertypes "github.com/cosmos/ibc-go/v10/modules/apps/transfer/types"
+	clienttypes "github.com/cosmos/ibc-go/v10/modules/core/02-client/types"
 	channeltypes "github.com/cosmos/ibc-go/v10/modules/core/04-channel/types"
 	host "github.com/cosmos/ibc-go/v10/modules/core/24-host"
 
@@ -114,6 +118,40 @@ func (w *World) installRewardsHooks() {
 			fee = fee.Add(sdk.NewCoin(BondDenom, math.NewInt(1+w.Rnd.Int63n(1000))))
 		}
 		msg := banktypes.NewMsgSend(c.user.Addr, c.relayer.Addr, sdk.NewCoins(sdk.NewCoin(BondDenom, math.OneInt())))
-		return []TxSpec{{Signer: c.user, Msgs: []sdk.Msg{msg}, Fee: fee, Tag: "fee-tx"}}, nil
+		specs := []TxSpec{{Signer: c.user, Msgs: []sdk.Msg{msg}, Fee: fee, Tag: "fee-tx"}}
+		// now and then an ordinary user of the consumer chain sends tokens straight into the provider's rewards pool, with a reward
+		// memo naming this consumer, another consumer, no consumer at all, or without a memo
+		if l.XferCons != "" && w.Rnd.Intn(9) == 0 {
+			memo, kind := "", "none"
+			ids := []string{l.CID}
+			for _, ol := range w.LiveLinks() {
+				if ol != l {
+					ids = append(ids, ol.CID)
+				}
+			}
+			switch w.Rnd.Intn(4) {
+			case 0:
+			case 1:
+				memo, _ = ccv.CreateTransferMemo(l.CID, c.ID)
+				kind = "own"
+			case 2:
+				memo, _ = ccv.CreateTransferMemo(ids[len(ids)-1], c.ID)
+				kind = "other:" + ids[len(ids)-1]
+			default:
+				memo, _ = ccv.CreateTransferMemo("999", c.ID)
+				kind = "unknown"
+			}
+			pool := authtypes.NewModuleAddress(providertypes.ConsumerRewardsPool).String()
+			amt := 1 + w.Rnd.Int63n(5000)
+			denom := "ufee"
+			if w.Rnd.Intn(4) == 0 {
+				denom = BondDenom
+			}
+			tm := transfertypes.NewMsgTransfer("transfer", l.XferCons, sdk.NewCoin(denom, math.NewInt(amt)), c.user.Addr.String(), pool,
+				clienttypes.ZeroHeight(), uint64(w.Now.Add(2*time.Hour).UnixNano()), memo)
+			w.Op("user transfer into the rewards pool from %s: %d%s memo=%s", l.CID, amt, denom, kind)
+			specs = append(specs, TxSpec{Signer: c.user, Msgs: []sdk.Msg{tm}, Tag: "user-transfer:" + kind})
+		}
+		return specs, nil
 	}
 }
